@@ -50,7 +50,7 @@ theorem elem_at (H : HInv T L D o Inv rr ℓ path he) {i hk : Nat}
   rw [H.len_eq] at this
   exact ⟨he.elems[i], List.getElem?_eq_getElem this⟩
 
-theorem keys_at (S : OpsSpec T L D cfg o Inv rr) (H : HInv T L D o Inv rr ℓ path he) {i hk : Nat} {el : MElemF α}
+theorem keys_at (S : OpsStruct T L D o Inv rr) (H : HInv T L D o Inv rr ℓ path he) {i hk : Nat} {el : MElemF α}
     (hi : he.hkeys[i]? = some hk) (hel : he.elems[i]? = some el) :
     ∀ p ∈ el.toList o, KeyOk T L D p.1 ∧ p.1.digs.take ℓ = path ∧ p.1.dig ℓ = hk := by
   intro p hp
@@ -66,7 +66,7 @@ theorem mem_toList (H : HInv T L D o Inv rr ℓ path he) {p : MKey × Elem} (hp 
   obtain ⟨hk, hhk⟩ := H.hkey_at hi
   exact ⟨i, hk, el, hhk, hi, hpel⟩
 
-theorem keys (S : OpsSpec T L D cfg o Inv rr) (H : HInv T L D o Inv rr ℓ path he) :
+theorem keys (S : OpsStruct T L D o Inv rr) (H : HInv T L D o Inv rr ℓ path he) :
     ∀ p ∈ HkeyElems.toList o he, KeyOk T L D p.1 ∧ p.1.digs.take ℓ = path := by
   intro p hp
   obtain ⟨i, hk, el, hi, hel, hpel⟩ := H.mem_toList hp
@@ -74,7 +74,7 @@ theorem keys (S : OpsSpec T L D cfg o Inv rr) (H : HInv T L D o Inv rr ℓ path 
   exact ⟨this.1, this.2.1⟩
 
 /-- a key whose digest at this level is absent from the table is absent from the elements -/
-theorem absent_of_dig (S : OpsSpec T L D cfg o Inv rr) (H : HInv T L D o Inv rr ℓ path he) {k : MKey}
+theorem absent_of_dig (S : OpsStruct T L D o Inv rr) (H : HInv T L D o Inv rr ℓ path he) {k : MKey}
     (hno : ∀ j : Nat, he.hkeys[j]? ≠ some (k.dig ℓ)) : ∀ p ∈ HkeyElems.toList o he, p.1 ≠ k := by
   intro p hp hpk
   obtain ⟨i, hk, el, hi, hel, hpel⟩ := H.mem_toList hp
@@ -83,7 +83,7 @@ theorem absent_of_dig (S : OpsSpec T L D cfg o Inv rr) (H : HInv T L D o Inv rr 
   exact hno i (by rw [hi, this])
 
 /-- the pair list splits around the element below the digest of `k`; `k` does not occur elsewhere -/
-theorem locate (S : OpsSpec T L D cfg o Inv rr) (H : HInv T L D o Inv rr ℓ path he) {k : MKey} {i : Nat}
+theorem locate (S : OpsStruct T L D o Inv rr) (H : HInv T L D o Inv rr ℓ path he) {k : MKey} {i : Nat}
     (hi : he.hkeys[i]? = some (k.dig ℓ)) {el : MElemF α} (hel : he.elems[i]? = some el) :
     HkeyElems.toList o he = (he.elems.take i).flatMap (MElemF.toList o) ++
         (el.toList o ++ (he.elems.drop (i + 1)).flatMap (MElemF.toList o)) ∧
@@ -107,7 +107,7 @@ theorem locate (S : OpsSpec T L D cfg o Inv rr) (H : HInv T L D o Inv rr ℓ pat
     have := sorted_get_inj H.sorted hhk' hi
     omega
 
-theorem distinct (S : OpsSpec T L D cfg o Inv rr) (H : HInv T L D o Inv rr ℓ path he) :
+theorem distinct (S : OpsStruct T L D o Inv rr) (H : HInv T L D o Inv rr ℓ path he) :
     KeysDistinct (HkeyElems.toList o he) := by
   unfold KeysDistinct HkeyElems.toList
   rw [List.pairwise_flatMap]
@@ -130,14 +130,37 @@ theorem distinct (S : OpsSpec T L D cfg o Inv rr) (H : HInv T L D o Inv rr ℓ p
     rw [heq] at h1
     omega
 
-theorem elem_ne_nil (S : OpsSpec T L D cfg o Inv rr) (H : HInv T L D o Inv rr ℓ path he) :
+theorem ordered (S : OpsStruct T L D o Inv rr) (H : HInv T L D o Inv rr ℓ path he) :
+    ((HkeyElems.toList o he).map (fun p => p.1.digs)).Pairwise (fun a b => a = b ∨ List.Lex (· < ·) a b) := by
+  unfold HkeyElems.toList
+  rw [List.map_flatMap, List.pairwise_flatMap]
+  constructor
+  · intro el hel
+    obtain ⟨i, hi⟩ := List.mem_iff_getElem?.mp hel
+    obtain ⟨hk, hhk⟩ := H.hkey_at hi
+    exact (H.elemOk hhk hi).ordered S
+  · rw [List.pairwise_iff_getElem]
+    intro i j hi hj hij x hx y hy
+    have hi' : he.elems[i]? = some he.elems[i] := List.getElem?_eq_getElem hi
+    have hj' : he.elems[j]? = some he.elems[j] := List.getElem?_eq_getElem hj
+    obtain ⟨hk1, hhk1⟩ := H.hkey_at hi'
+    obtain ⟨hk2, hhk2⟩ := H.hkey_at hj'
+    obtain ⟨p, hp, rfl⟩ := List.mem_map.mp hx
+    obtain ⟨q, hq, rfl⟩ := List.mem_map.mp hy
+    have h1 := (H.elemOk hhk1 hi').keys S p hp
+    have h2 := (H.elemOk hhk2 hj').keys S q hq
+    have hlt := sorted_get_lt H.sorted hhk1 hhk2 hij
+    right
+    exact lex_of_prefix h1.2 h2.2 hlt
+
+theorem elem_ne_nil (S : OpsStruct T L D o Inv rr) (H : HInv T L D o Inv rr ℓ path he) :
     ∀ el ∈ he.elems, el.toList o ≠ [] := by
   intro el hel
   obtain ⟨i, hi⟩ := List.mem_iff_getElem?.mp hel
   obtain ⟨hk, hhk⟩ := H.hkey_at hi
   exact (H.elemOk hhk hi).toList_ne_nil S
 
-theorem count_pos (S : OpsSpec T L D cfg o Inv rr) (H : HInv T L D o Inv rr ℓ path he) :
+theorem count_pos (S : OpsStruct T L D o Inv rr) (H : HInv T L D o Inv rr ℓ path he) :
     1 ≤ he.elems.length ↔ HkeyElems.toList o he ≠ [] := by
   have hne := H.elem_ne_nil S
   unfold HkeyElems.toList
@@ -148,7 +171,7 @@ theorem count_pos (S : OpsSpec T L D cfg o Inv rr) (H : HInv T L D o Inv rr ℓ 
     have := hne a List.mem_cons_self
     simp [this]
 
-theorem length_le_toList (S : OpsSpec T L D cfg o Inv rr) (H : HInv T L D o Inv rr ℓ path he) :
+theorem length_le_toList (S : OpsStruct T L D o Inv rr) (H : HInv T L D o Inv rr ℓ path he) :
     he.elems.length ≤ (HkeyElems.toList o he).length := by
   have hne := H.elem_ne_nil S
   unfold HkeyElems.toList
@@ -164,7 +187,7 @@ theorem length_le_toList (S : OpsSpec T L D cfg o Inv rr) (H : HInv T L D o Inv 
       | cons _ _ => simp
     simp only [List.flatMap_cons, List.length_append, List.length_cons]; omega
 
-theorem popIter_fst (S : OpsSpec T L D cfg o Inv rr) (he : HkeyElems α) (c : Ctx) :
+theorem popIter_fst (S : OpsStruct T L D o Inv rr) (he : HkeyElems α) (c : Ctx) :
     (HkeyElems.popIter o he c).1 = (HkeyElems.toList o he).reverse := by
   have hel : ∀ (el : MElemF α) c, (el.popIter o c).1 = (el.toList o).reverse := by
     intro el c
